@@ -24,7 +24,38 @@ const protoLen = 4
 func registerProtoModel(P *Program) {
 	ic := P.intercepts
 	ic["google.golang.org/protobuf/proto.Marshal"] = func(ex *Exec, th *Thread, caller *frame, fn *ssa.Function, args []Value) Value {
-		m := args[0].(Iface)
+		return protoMarshal(ex, th, caller, fn, args[0].(Iface), false)
+	}
+	// MarshalOptions{AllowPartial: true}.Marshal: what a party that writes bytes by hand can produce
+	ic["(google.golang.org/protobuf/proto.MarshalOptions).Marshal"] = func(ex *Exec, th *Thread, caller *frame, fn *ssa.Function, args []Value) Value {
+		return protoMarshal(ex, th, caller, fn, args[1].(Iface), protoAllowPartial(fn, args[0]))
+	}
+	ic["google.golang.org/protobuf/proto.Unmarshal"] = func(ex *Exec, th *Thread, caller *frame, fn *ssa.Function, args []Value) Value {
+		return protoUnmarshal(ex, th, caller, args[0].(Slice), args[1].(Iface), false)
+	}
+	ic["(google.golang.org/protobuf/proto.UnmarshalOptions).Unmarshal"] = func(ex *Exec, th *Thread, caller *frame, fn *ssa.Function, args []Value) Value {
+		return protoUnmarshal(ex, th, caller, args[1].(Slice), args[2].(Iface), protoAllowPartial(fn, args[0]))
+	}
+}
+
+// protoAllowPartial reads the AllowPartial field of a MarshalOptions / UnmarshalOptions receiver.
+func protoAllowPartial(fn *ssa.Function, recv Value) bool {
+	st := fn.Signature.Recv().Type().Underlying().(*types.Struct)
+	sv := recv.(StructV)
+	for i := 0; i < st.NumFields(); i++ {
+		if st.Field(i).Name() == "AllowPartial" {
+			b, ok := sv.f[i].(bool)
+			if !ok {
+				panic(abortPath{"symbolic AllowPartial"})
+			}
+			return b
+		}
+	}
+	return false
+}
+
+func protoMarshal(ex *Exec, th *Thread, caller *frame, fn *ssa.Function, m Iface, partial bool) Value {
+	{
 		bt := fn.Signature.Results().At(0).Type()
 		if m.T == nil {
 			return Tuple{zero(bt), Iface{}}
@@ -34,7 +65,7 @@ func registerProtoModel(P *Program) {
 			return Tuple{zero(bt), Iface{}}
 		}
 		st := m.T.(*types.Pointer).Elem()
-		if missing := ex.protoMissingRequired(st, p.raw()); missing != "" {
+		if missing := ex.protoMissingRequired(st, p.raw(), false); missing != "" && !partial {
 			e := ex.call(th, caller, ex.P.findFunc("errors", "New"), []Value{"proto: required field " + missing + " not set"})
 			return Tuple{zero(bt), e}
 		}
@@ -69,9 +100,10 @@ func registerProtoModel(P *Program) {
 		ex.protoTags[key] = tag
 		return Tuple{s, Iface{}}
 	}
-	ic["google.golang.org/protobuf/proto.Unmarshal"] = func(ex *Exec, th *Thread, caller *frame, fn *ssa.Function, args []Value) Value {
-		b := args[0].(Slice)
-		m := args[1].(Iface)
+}
+
+func protoUnmarshal(ex *Exec, th *Thread, caller *frame, b Slice, m Iface, partial bool) Value {
+	{
 		mkerr := func(msg string) Value {
 			return ex.call(th, caller, ex.P.findFunc("errors", "New"), []Value{msg})
 		}
@@ -90,9 +122,56 @@ func registerProtoModel(P *Program) {
 		}
 		p := m.V.(*Pointer)
 		st := m.T.(*types.Pointer).Elem()
+		// the decoder's own required-field check (protobuf-go 1.34 fast path): complete, except that the
+		// status of a message held by a oneof member other than the oneof's first field is not propagated
+		// (observed natively: Op{unary:{}} and Op{Binary:{}} without their required kind are accepted)
+		if !partial {
+			if missing := ex.protoMissingRequired(st, tag.Snap, true); missing != "" {
+				return mkerr("proto: required field " + missing + " not set")
+			}
+		}
 		p.store(ex.protoCopy(st, tag.Snap, nil, true))
 		return Iface{}
 	}
+}
+
+// protoOneofFirst: is wrapper type wt (e.g. *pb.Op_Unary) the first member of its oneof? Decided from the
+// field numbers in the struct tags of all wrapper types implementing the same oneof interface.
+func (ex *Exec) protoOneofFirst(itf types.Type, wt types.Type) bool {
+	num := func(t types.Type) int {
+		st, ok := t.Underlying().(*types.Struct)
+		if !ok || st.NumFields() != 1 {
+			return -1
+		}
+		parts := strings.Split(reflect.StructTag(st.Tag(0)).Get("protobuf"), ",")
+		if len(parts) < 2 {
+			return -1
+		}
+		n := 0
+		fmt.Sscanf(parts[1], "%d", &n)
+		return n
+	}
+	mine := num(wt.(*types.Pointer).Elem())
+	iface, ok := itf.Underlying().(*types.Interface)
+	named, isNamed := wt.(*types.Pointer).Elem().(*types.Named)
+	if !ok || !isNamed || named.Obj().Pkg() == nil {
+		return true
+	}
+	scope := named.Obj().Pkg().Scope()
+	for _, nm := range scope.Names() {
+		tn, ok := scope.Lookup(nm).(*types.TypeName)
+		if !ok {
+			continue
+		}
+		pt := types.NewPointer(tn.Type())
+		if !types.Implements(pt, iface) {
+			continue
+		}
+		if n := num(tn.Type()); n >= 0 && n < mine {
+			return false
+		}
+	}
+	return true
 }
 
 // findProtoTag recognises a byte slice as the encoding produced by Marshal: either the tagged buffer
@@ -144,7 +223,7 @@ func protoTagOf(st *types.Struct, i int) (req, oneof bool, has bool) {
 	return req, false, true
 }
 
-func (ex *Exec) protoMissingRequired(t types.Type, v Value) string {
+func (ex *Exec) protoMissingRequired(t types.Type, v Value, decoder bool) string {
 	st, ok := t.Underlying().(*types.Struct)
 	if !ok {
 		return ""
@@ -163,7 +242,10 @@ func (ex *Exec) protoMissingRequired(t types.Type, v Value) string {
 				wp := itf.V.(*Pointer)
 				if wp != nil {
 					wt := itf.T.(*types.Pointer).Elem()
-					if m := ex.protoMissingRequired(wt, wp.raw()); m != "" {
+					if decoder && !ex.protoOneofFirst(ft, itf.T) {
+						continue
+					}
+					if m := ex.protoMissingRequired(wt, wp.raw(), decoder); m != "" {
 						return m
 					}
 				}
@@ -180,7 +262,7 @@ func (ex *Exec) protoMissingRequired(t types.Type, v Value) string {
 				continue
 			}
 			if _, isStruct := u.Elem().Underlying().(*types.Struct); isStruct {
-				if m := ex.protoMissingRequired(u.Elem(), p.raw()); m != "" {
+				if m := ex.protoMissingRequired(u.Elem(), p.raw(), decoder); m != "" {
 					return m
 				}
 			}
@@ -194,12 +276,12 @@ func (ex *Exec) protoMissingRequired(t types.Type, v Value) string {
 					ep := s.at(k).(*Pointer)
 					if ep == nil {
 						// nil element encodes as an empty message
-						if m := ex.protoMissingRequired(pt.Elem(), zero(pt.Elem())); m != "" {
+						if m := ex.protoMissingRequired(pt.Elem(), zero(pt.Elem()), decoder); m != "" {
 							return m
 						}
 						continue
 					}
-					if m := ex.protoMissingRequired(pt.Elem(), ep.raw()); m != "" {
+					if m := ex.protoMissingRequired(pt.Elem(), ep.raw(), decoder); m != "" {
 						return m
 					}
 				}
